@@ -230,11 +230,14 @@ Definition versions_ambiguous (C : mcfg) (O : oracle) (vs : list version) : bool
            negb (forallb (fun v => o_parses O (v_sys v0) (ver v)) vs)
   end.
 
+(* sortNPMDependencies lower-cases the shown names with strings.ToLower, which the model has on
+   ASCII only: an npm requirement list with a non-ASCII shown name is outside the fragment *)
 Definition deps_ambiguous (ds : list reqver) : bool :=
-  long ds && match ds with
-             | [] => false
-             | d0 :: _ => N.eqb (r_sys d0) sys_npm && negb (tie_free dep_less ds)
-             end.
+  match ds with
+  | [] => false
+  | d0 :: _ => N.eqb (r_sys d0) sys_npm &&
+               ((long ds && negb (tie_free dep_less ds)) || negb (forallb (fun d => is_ascii (dep_name d)) ds))
+  end.
 
 Definition hop_covered (T : list systable) (o : hop) : bool :=
   match o with
